@@ -7,7 +7,7 @@ use xeh::prelude::*;
 
 pub const DEF: PropDef = PropDef {
     id: "C02",
-    rule: "programs = control-flow backbone (calls/returns, recursion, locals incl. re-initialisation inside loops and declarations under untaken branches, do/begin loops, break, case, variable stores) + snippets for over/rot/swap/dup/drop, vector/map/tag builders, foreach over vectors and maps, let destructuring, late words, collect/unbox, bit-string cursor reads (open-bitstr u8 bits seek close-bitstr), emit; no meta blocks. \
+    rule: "programs = control-flow backbone (calls/returns, recursion, locals incl. re-initialisation inside loops and declarations under untaken branches, do/begin loops, break, case, variable stores) + snippets for over/rot/swap/dup/drop, vector/map/tag builders, foreach over vectors and maps, let destructuring, late words, collect/unbox, bit-string cursor reads (open-bitstr u8 bits seek close-bitstr), emit; no meta blocks. 1 case in 4 is instead a straight-line program over the whole native dictionary (every word of C13's typed table with literal arguments that make it succeed, a binary input open). \
 The program is compiled with recording switched on (before or after compile) and driven by a generated walk of Fwd(a)/Back(b) moves inside [0, horizon] where horizon = the number of consecutive successful steps (measured on a throw-away clone). \
 Oracle (history invariant): the first time a position is reached its state (ip, whole data stack, call frames with locals, loop frames with their items, builder marks, every heap cell) is stored; after every single rnext() and every single re-executed next() the state must equal the stored state of the new position. Every walk ends with a full rewind to position 0 (where one more rnext() must change nothing) and a full replay to the farthest position. \
 Non-trivial = the walk has a Back of >=2 steps followed by a Fwd and the program executes a call, loop iteration, break, local, store, builder or cursor move; distinct = hash of program and walk",
@@ -46,7 +46,7 @@ fn opname(xs: &Xstate, ip: usize) -> String {
 pub fn case(ch: &mut Choices, ctx: &CaseCtx) -> CaseOut {
     let mut out = CaseOut::default();
     let big = ctx.tier_thorough;
-    let p = ext::generate(ch, &ext::ExtOpts { meta: false, failing: false, max_items: if big { 8 } else { 4 }, backbone_nodes: if big { 50 } else { 20 } });
+    let p = if ch.chance(1, 4) { ext::dictionary(ch, if big { 10 } else { 5 }) } else { ext::generate(ch, &ext::ExtOpts { meta: false, failing: false, max_items: if big { 8 } else { 4 }, backbone_nodes: if big { 50 } else { 20 } }) };
     let mut xs = xs::fresh();
     xs.intercept_output(true).unwrap();
     xs.set_insn_limit(Some(200_000)).unwrap();
@@ -184,7 +184,7 @@ pub fn case(ch: &mut Choices, ctx: &CaseCtx) -> CaseOut {
     if let Some((sig, detail)) = fail {
         out.fail(sig, format!("{}\n{}", detail, render));
     }
-    let kinds = ["call", "do-loop", "break", "local", "foreach-vec", "foreach-map", "vec-builder", "map-builder", "cursor-reads", "until", "while", "locals", "let-global", "let-local", "tags", "late-word", "recursion", "local-in-loop"];
+    let kinds = ["call", "do-loop", "break", "local", "foreach-vec", "foreach-map", "vec-builder", "map-builder", "cursor-reads", "until", "while", "locals", "let-global", "let-local", "tags", "late-word", "recursion", "local-in-loop", "dictionary-words"];
     let interesting = p.features.iter().any(|f| kinds.contains(f));
     out.nontrivial = back2_then_fwd && interesting;
     for f in &p.features {
